@@ -205,7 +205,7 @@ Qed.
 Lemma register_imports_wf l : forall st, Forall wf_err (fst (register_imports l st)).
 Proof.
   induction l as [|[a p] l IH]; intros st; cbn [register_imports]; [constructor|].
-  dest_wf (register_prefix_wf a p st).
+  dest_wf (register_prefix_wf a (sanitize_path p) st).
   match goal with |- context [register_imports l ?d] => dest_wf (IH d) end.
   wf.
 Qed.
